@@ -182,9 +182,11 @@ func (c *Context) ActorOf(actor vivid.Actor, options ...vivid.ActorOption) (vivi
 		c.children = make(map[vivid.ActorPath]vivid.ActorRef)
 	}
 	c.children[childCtx.Ref().GetPath()] = childCtx.Ref()
+	// OnLaunch 必须在子 Actor 对监管流程可见（Children()）之前入队：其它协程调用 ActorOf 时，父级此刻广播的指令
+	// （如 one-for-all 的重启、终止）否则可能先于 OnLaunch 到达，使子 Actor 在从未启动的情况下被重启或终止
+	c.tell(true, childCtx.Ref(), new(vivid.OnLaunch))
 	c.childrenLock.Unlock()
 
-	c.tell(true, childCtx.Ref(), new(vivid.OnLaunch))
 	c.Logger().Debug("actor spawned", log.String("path", childCtx.Ref().GetPath()))
 
 	// 通知事件流
